@@ -129,6 +129,7 @@ fn c05_jump_placeholder_pair() {
     placeholder_pair(0);
     placeholder_pair(5);
     placeholder_pair(65535);
+    kani::cover!(true, "the end of the harness is reached past every obligation");
 }
 
 // LEB128 oracle (independent of the implementation): minimal-length little-endian base-128 digits of n
